@@ -19,6 +19,8 @@ import RbV.Thm.GenSrcLcp
 import RbV.Thm.GenSrcTransform
 import RbV.Thm.GenSrcPosTypes
 import RbV.Thm.GenSrcSaisBuckets
+import RbV.Thm.GenSrcSaisCalcPos
+import RbV.Thm.GenSrcSaisLms
 /-!
 # C03 — suffix array = sorted permutation of all suffixes; LCP; shortest unique substrings
 
@@ -592,17 +594,13 @@ example : Gen.SrcSus.sus [0] [-1, -1] = Rs.Res.panic := by decide
 
 /-! ### translated text of `lcp` (Kasai; `RbV/Gen/SrcLcp.lean`, regenerated on every run; builder gensa, `tools/rs2lean_gensa.py`) -/
 
-/-- translated `lcp` = mirror model `Kasai.kasai` (inverse-permutation loop, `while` extension, `lcp.set(rank[p], l)`, `l - 1`)
-for every permutation `sa` of the positions of a non-empty text that starts with `n - 1`: no index out of range, no
-underflow of `rank[p] - 1`, the loop fuel `n + 1` suffices, `l as isize` is exact -/
-theorem lcp_source_eq_model (t sa : List Nat) (hperm : sa.Perm (List.range t.length))
-    (hhead : sa.head? = some (t.length - 1)) (hn : 0 < t.length) (hsz : t.length + 1 < 2 ^ 63) :
-    Gen.SrcLcp.lcp t sa = Rs.Res.ok (Kasai.kasai t sa) :=
-  Thm.GenSrcLcp.lcp_eq_model t sa hperm hhead hn hsz
+-- (the step-by-step equality `translated lcp = Kasai.kasai` on every permutation starting with `n - 1` —
+-- `RbV.Thm.GenSrcLcpModel.lcp_eq_model` — is a *soft* obligation since the model-free proof of `lcp_source_exact` exists:
+-- another carried `l`, or another LCP algorithm (seeded change C03-H4), keeps the property)
 
 /-- **the translated `lcp` on every accepted suffix array of a single-sentinel text returns `lcpRef`** (length `n + 1`, `-1` at
-both ends, longest common prefix of neighbouring suffixes inside: `lcpRef_spec`) — no mirror model left between the text of
-the function and the reference -/
+both ends, longest common prefix of neighbouring suffixes inside: `lcpRef_spec`) — proved model-free (loop invariant `l ≤` true
+LCP with the predecessor, `Thm.GenSrcLcp.for2_sorted`), no mirror model between the text of the function and the reference -/
 theorem lcp_source_exact (t sa : List Nat) (hc : checkSA t sa = true)
     (hsingle : ∀ p, t[p]? = some (sentinelOf t) → p = t.length - 1)
     (hmin : ∀ p, p < t.length → sentinelOf t ≤ t.getD p 0) (hn : 2 ≤ t.length) (hsz : t.length + 1 < 2 ^ 63) :
@@ -762,5 +760,85 @@ example : (do let (m, bst) ← Gen.SrcSaisBuckets.init_bucket_start some [] [] [
 -- a symbol that does not fit `usize` (`cast(c).unwrap()`), and the empty text (`&bucket_start[1..]`), panic
 example : Gen.SrcSaisBuckets.init_bucket_start (fun _ => none) [] [] [1, 0] = Rs.Res.panic := by decide
 example : Gen.SrcSaisBuckets.init_bucket_end [] [] [] = Rs.Res.panic := by decide
+
+/-! ### translated text of `Sais::calc_pos` (`RbV/Gen/SrcSaisCalcPos.lean`; builder gensa) -/
+
+/-- **translated `calc_pos` = the mirror model `Sais.calcPosRun`, step by step, on every index-safe run** — with the
+*translated* `init_bucket_start`, `init_bucket_end`, `is_l_pos`, `is_s_pos` in the place of its callees, on a text SA-IS
+accepts with its L/S typing: placement of the LMS positions from the right (`wrapping_sub`), bucket-end reset, L pass with
+the `p == n || p == 0` skip, S pass with only the `p == 0` skip.  `SafeRun` says that every index the three passes of the
+*model* use is in range (the model totalises such accesses, the code panics).  **Partial**: missing is the proof that every
+run on a `Sais.Valid` text with a list of LMS positions is index-safe (true on every case of the correspondence run; the
+invariants of `Lemmas/SaisPlace/LPass/SPass.lean` do not export the bounds). -/
+theorem calc_pos_source_eq_model_partial (castU : Nat → Option Nat) (pos0 lms : List Nat) (bsz : Rs.VecMap)
+    (bst0 be0 t : List Nat) (hv : Sais.Valid t) (hc : ∀ c ∈ t, castU c = some c) (hsz : t.length < 2 ^ 64)
+    (hsafe : Thm.GenSrcSaisCalcPos.SafeRun t (Sais.tyOf t) lms) :
+    ∃ m, Gen.SrcSaisCalcPos.calc_pos castU (Gen.SrcPosTypes.is_l_pos (Sais.tyOf t)) (Gen.SrcPosTypes.is_s_pos (Sais.tyOf t))
+        (Gen.SrcPosTypes.is_lms_pos (Sais.tyOf t)) (Gen.SrcSaisBuckets.init_bucket_start castU)
+        Gen.SrcSaisBuckets.init_bucket_end pos0 lms bsz bst0 be0 t (Sais.tyOf t) =
+      Rs.Res.ok ((Sais.calcPosRun t (Sais.tyOf t) lms).pos, m, (Sais.calcPosRun t (Sais.tyOf t) lms).bStart,
+        (Sais.calcPosRun t (Sais.tyOf t) lms).bEnd) := by
+  obtain ⟨m, h1, _⟩ := Thm.GenSrcSaisBuckets.init_bucket_start_spec castU bsz bst0 t hc hsz
+  exact ⟨m, Thm.GenSrcSaisCalcPos.calc_pos_eq_model castU _ _ _ _ _ pos0 lms bsz bst0 be0 t (Sais.tyOf t) m hc
+    (fun q hq => Thm.GenSrcPosTypes.is_l_pos_eq_model _ q hq) (fun q hq => Thm.GenSrcPosTypes.is_s_pos_eq_model _ q hq)
+    h1 (fun be => Thm.GenSrcSaisBuckets.init_bucket_end_valid be t hv) hsafe⟩
+
+-- the run on the doc-test text of `suffix_array_int` with its sorted LMS positions is index-safe, and the translated code
+-- evaluated on it returns the suffix array
+example : Thm.GenSrcSaisCalcPos.SafeRun [3, 2, 2, 4, 4, 1, 2, 1, 0] (Sais.tyOf [3, 2, 2, 4, 4, 1, 2, 1, 0]) [8, 5, 1] :=
+  ⟨by decide, by decide, by decide, by decide⟩
+example : (do
+    let ty ← Gen.SrcPosTypes.new [3, 2, 2, 4, 4, 1, 2, 1, 0]
+    let r ← Gen.SrcSaisCalcPos.calc_pos some (Gen.SrcPosTypes.is_l_pos ty) (Gen.SrcPosTypes.is_s_pos ty)
+      (Gen.SrcPosTypes.is_lms_pos ty) (Gen.SrcSaisBuckets.init_bucket_start some) Gen.SrcSaisBuckets.init_bucket_end
+      [] [8, 5, 1] [] [] [] [3, 2, 2, 4, 4, 1, 2, 1, 0] ty
+    pure r.1) = Rs.Res.ok [8, 7, 5, 6, 1, 2, 0, 4, 3] := by decide
+-- an LMS list with a position outside the text: the code panics (the model drops the write)
+example : Gen.SrcSaisCalcPos.calc_pos some (fun _ => Rs.Res.ok false) (fun _ => Rs.Res.ok false) (fun _ => Rs.Res.ok false)
+    (Gen.SrcSaisBuckets.init_bucket_start some) Gen.SrcSaisBuckets.init_bucket_end [] [7] [] [] [] [1, 0] [false, true]
+    = Rs.Res.panic := by decide
+
+/-! ### translated text of `Sais::lms_substring_eq`, `Sais::calc_lms_pos` (`RbV/Gen/SrcSaisLms.lean`; builder gensa) -/
+
+/-- translated `lms_substring_eq` (with the translated `is_lms_pos`) = the mirror model `Sais.lmsSubEq` for two **different**
+positions of a text SA-IS accepts: `for k in 0..` never leaves the text (it stops at the latest when a cursor reaches the
+final position) and the fuel `n + 1` suffices; with `sais_lms_substring_eq` the translated function decides equality of typed
+LMS substrings -/
+theorem lms_substring_eq_source_eq_model (t : List Nat) (hv : Sais.Valid t) (i j : Nat) (hi : i < t.length) (hj : j < t.length)
+    (hij : i ≠ j) (hsz : t.length + t.length < 2 ^ 64) :
+    Gen.SrcSaisLms.lms_substring_eq (Gen.SrcPosTypes.is_l_pos (Sais.tyOf t)) (Gen.SrcPosTypes.is_s_pos (Sais.tyOf t))
+      (Gen.SrcPosTypes.is_lms_pos (Sais.tyOf t)) t (Sais.tyOf t) i j = Rs.Res.ok (Sais.lmsSubEq t (Sais.tyOf t) i j) :=
+  Thm.GenSrcSaisLms.lms_substring_eq_eq_model _ _ _ t (Sais.tyOf t) i j hi hj hij hsz
+    (fun p hp => Sais.sym_ne_last hv p hp)
+    (fun q hq => Thm.GenSrcPosTypes.is_lms_pos_eq_model _ q (by rw [Sais.length_tyOf]; exact hq))
+
+/-- translated `calc_lms_pos` = the model's collection loop (`Sais.collectStep`: exactly the LMS positions ascending and their
+indices, `sais_lms_pos`), then `calc_pos` on them, then `sort_lms_suffixes` at the width the dispatch selects — for every pair
+of callees (they are abstract parameters; `calc_pos` is `calc_pos_source_eq_model_partial`) -/
+theorem calc_lms_pos_source_eq_model
+    (calcPos : List Nat → List Nat → Rs.VecMap → List Nat → List Nat → List Nat → List Bool →
+      Rs.Res (List Nat × Rs.VecMap × List Nat × List Nat))
+    (sortLms : Nat → List Nat → List Nat → List Nat → Rs.VecMap → List Nat → List Nat → List Nat → List Bool → Nat →
+      Rs.Res (List Nat × List Nat × List Nat × Rs.VecMap × List Nat × List Nat))
+    (pos lms0 rtp : List Nat) (bsz : Rs.VecMap) (bst be t : List Nat) (hr : t.length ≤ rtp.length) (hsz : t.length < 2 ^ 64) :
+    Gen.SrcSaisLms.calc_lms_pos (Gen.SrcPosTypes.is_l_pos (Sais.tyOf t)) (Gen.SrcPosTypes.is_s_pos (Sais.tyOf t))
+        (Gen.SrcPosTypes.is_lms_pos (Sais.tyOf t)) calcPos sortLms pos lms0 rtp bsz bst be t (Sais.tyOf t) =
+      (do let c := Sais.forUp t.length (Sais.collectStep (Sais.tyOf t)) ([], rtp, 0)
+          let (pos, bsz, bst, be) ← calcPos pos c.1 bsz bst be t (Sais.tyOf t)
+          sortLms (Thm.GenSrcSaisLms.widthOf c.1.length) pos c.1 c.2.1 bsz bst be t (Sais.tyOf t) c.1.length) :=
+  Thm.GenSrcSaisLms.calc_lms_pos_eq_model _ _ _ calcPos sortLms (Sais.tyOf t)
+    (fun q hq => Thm.GenSrcPosTypes.is_lms_pos_eq_model _ q hq) pos lms0 rtp bsz bst be t (Sais.length_tyOf t) hr hsz
+
+-- the LMS substrings at 1 and 3 (`1 3 1`) are equal, those at 1 and 5 (`1 3 0`) are not
+example : (do let ty ← Gen.SrcPosTypes.new [2, 1, 3, 1, 3, 1, 3, 0]
+              let a ← Gen.SrcSaisLms.lms_substring_eq (Gen.SrcPosTypes.is_l_pos ty) (Gen.SrcPosTypes.is_s_pos ty)
+                        (Gen.SrcPosTypes.is_lms_pos ty) [2, 1, 3, 1, 3, 1, 3, 0] ty 1 3
+              let b ← Gen.SrcSaisLms.lms_substring_eq (Gen.SrcPosTypes.is_l_pos ty) (Gen.SrcPosTypes.is_s_pos ty)
+                        (Gen.SrcPosTypes.is_lms_pos ty) [2, 1, 3, 1, 3, 1, 3, 0] ty 1 5
+              pure (a, b)) = Rs.Res.ok (true, false) := by decide
+-- `i = j = n − 1`: the scan runs off the text (never called so)
+example : (do let ty ← Gen.SrcPosTypes.new [1, 0]
+              Gen.SrcSaisLms.lms_substring_eq (Gen.SrcPosTypes.is_l_pos ty) (Gen.SrcPosTypes.is_s_pos ty)
+                (Gen.SrcPosTypes.is_lms_pos ty) [1, 0] ty 1 1) = Rs.Res.panic := by decide
 
 end RbV.Thm.C03
